@@ -247,6 +247,25 @@ def generate(tier, seed, ctx):
         R.append("c18.metro2 %s %d %d %d %s %s 1 %s%s" % (gen(), s_, t_, b_, hx(1.0), hx(1.0), lst([0.0, 1.0, 2.0, 1.0]), tail2))
         R.append("c18.metro2 %s %d %d %d %s %s 1 %s%s" % (gen(), s_, t_, b_, hx(1.0), hx(-0.5), lst([]), tail2))
         R.append("c18.metro2 %s %d %d %d %s %s 1 %s%s" % (gen(), s_, t_, b_, hx(-1.0), hx(0.5), lst([0.0, 1.0, 0.0, 1.0]), tail2))
+    # --- CRAFTED generator states (the property quantifies over all states): loaded through operator>> with the state words of
+    #     chosen canonical uniforms zeroed, so that deviates of exactly 0.0 occur - validated against the MT19937 model (canonz),
+    #     then Metropolis with EVERY accept/reject deviate equal to 0.0: count, containment, uniforms consumed
+    for k in range(30 if th else 12):
+        ks = sorted(rng.sample(range(0, 300), rng.randint(1, 12)))
+        R.append("c18.canonz %d %s %d" % (rng.randrange(2 ** 32), ilst(ks), rng.choice([310, 700])))
+    for k in range(90 if th else 36):
+        dim = 1 + k % 2
+        s_, t_, b_ = rng.randint(1, 40), rng.randint(1, 3), rng.randint(0, 10)
+        imax = b_ + t_ * s_
+        if dim == 1:
+            acc = [2 + 2 * i for i in range(imax) if 2 + 2 * i < 311]
+            lo = dyadic(rng, -2, 2, 2); dom = [lo, lo + rng.choice([0.25, 1.0, 2.0])]
+            R.append("c18.metroz %d 1 %d %d %d %s %d %s %s" % (rng.randrange(2 ** 32), s_, t_, b_, hx(rng.choice([0.5, 1.0, 3.0])), rng.choice([0, 1, 2, 3]), lst(dom), ilst(acc)))
+        else:
+            acc = [4 + 3 * i for i in range(imax) if 4 + 3 * i < 311]
+            lo = dyadic(rng, -2, 2, 2); l2 = dyadic(rng, -2, 2, 2)
+            dom = [lo, lo + rng.choice([0.5, 1.0]), l2, l2 + rng.choice([0.5, 2.0])]
+            R.append("c18.metroz %d 2 %d %d %d %s %s %d %s %s" % (rng.randrange(2 ** 32), s_, t_, b_, hx(rng.choice([0.5, 2.0])), hx(rng.choice([0.5, 2.0])), rng.choice([0, 1, 2, 3]), lst(dom), ilst(acc)))
     # --- Poisson ----------------------------------------------------------------------------------------
     means = [1e-2, 0.1, 0.5, 1.0, 2.5, 10.0, 37.0, 100.0, 499.0, 500.0, 501.0, 709.0, 750.0, 1000.0, 1500.5, 3000.0, 5000.0]
     for k in range(260 if th else 90):
@@ -419,6 +438,8 @@ def compare(rq, impl, model, ctx):
         # the 20 s alarm of a forked child can fire on an overloaded machine: ask once more before believing it
         impl = _run_harness(_exe(ctx), [rq])[0]
         bump(ctx, "timeout-retried")
+    if op == "c18.metroz":
+        return cmp_metroz(a, impl, ctx)
     if op == "c18.det":
         return cmp_det(a, impl, ctx)
     if op == "c18.stat":
@@ -437,6 +458,13 @@ def compare(rq, impl, model, ctx):
     if op == "c18.mt":
         if [int(x) for x in ti] != [int(x) for x in tm]:
             out.append(fail("corr", "mt19937 model differs from std::mt19937 (model assumption broken, not the library)", ""))
+    elif op == "c18.canonz":
+        vi, vm = [Fraction(fl(x)) for x in ti], [fr(x) for x in tm]
+        nz = int(a[1]); ks = [int(x) for x in a[2:2 + nz]]
+        if any(vi[k] != 0 for k in ks if k < len(vi)):
+            out.append(fail("corr", "crafted generator state: a zeroed uniform is not exactly 0.0 (harness/libstdc++ assumption)", ""))
+        elif vi != vm:
+            out.append(fail("corr", "Sample_Uniform(0,1) from a crafted generator state differs from the MT19937 model", ""))
     elif op == "c18.canon":
         vi, vm = [Fraction(fl(x)) for x in ti], [fr(x) for x in tm]
         if vi != vm:
@@ -625,6 +653,33 @@ def cmp_metro(rq, op, impl, tm, ctx):
         for k in range(dim):
             if not close(x0[k], x0m[k], abs(Fraction(dom[2 * k])) + abs(Fraction(dom[2 * k + 1])), 4):
                 out.append(fail("corr", name + ": start is not uniform on the domain from the predicted uniform", "%r vs %s" % (x0[k], float(x0m[k]))))
+    return out
+
+
+def cmp_metroz(a, impl, ctx):
+    """Metropolis from a crafted state whose accept/reject deviates are exactly 0.0 (oracle on the implementation):
+    an acceptance probability of 0 (proposal outside the bounded domain, zero density) must never accept"""
+    dim = int(a[1]); s_, t_, b_ = int(a[2]), int(a[3]), int(a[4])
+    p = 5 + dim + 1
+    nd = int(a[p]); dom = [fl(x) for x in a[p + 1:p + 1 + nd]]
+    name = "Sample_Metropolis" + ("" if dim == 1 else "_2D")
+    ctx["nontrivial"].add(("c18.metroz", dim, a[5 + dim], min(s_, 3)))
+    if tag(impl) != "ok":
+        return [fail("prop", name + " crashed / exited on a valid request with a crafted generator state: " + tag(impl), impl[:200])]
+    t = toks(impl)
+    n = int(t[0]); v = [fl(x) for x in t[1:1 + n]]
+    u = int(t[t.index("u") + 1])
+    out = []
+    if n != s_ * dim:
+        out.append(fail("prop", "%s returned %d samples, %d requested (crafted generator state)" % (name, n // dim, s_), ""))
+    pts = v if dim == 1 else list(zip(v[0::2], v[1::2]))
+    ins = (lambda q: dom[0] <= q <= dom[1]) if dim == 1 else (lambda q: dom[0] <= q[0] <= dom[1] and dom[2] <= q[1] <= dom[3])
+    bad = [q for q in pts if not ins(q)]
+    if bad:
+        out.append(fail("prop", name + ": sample outside the bounded domain (generator state whose accept/reject deviates are exactly 0.0)", "%r not in %r" % (bad[0], dom)))
+    imax = b_ + t_ * s_
+    if u != dim + (dim + 1) * imax:
+        out.append(fail("prop", name + ": consumed %d uniforms of the passed generator, the loop needs exactly %d" % (u, dim + (dim + 1) * imax), ""))
     return out
 
 
@@ -826,6 +881,8 @@ def cmp_stat(a, impl, ctx):
 def oracle_only(rq, impl, ctx):
     op = rq.split(" ", 1)[0]
     a = rq.split()[1:]
+    if op == "c18.metroz":
+        return cmp_metroz(a, impl, ctx)
     if op == "c18.det":
         return cmp_det(a, impl, ctx)
     if op == "c18.stat":
